@@ -447,6 +447,9 @@ func (e *Engine) checkPackLayout(fn *ssa.Function, fields []SchemaField) layoutR
 			if cur == nil {
 				return layoutResult{false, fmt.Sprintf("field %s: the offset result of %s is not used", sf.GoFields[0], helper)}
 			}
+			if !errGuarded(c, p) {
+				return layoutResult{false, fmt.Sprintf("field %s: the successful path does not go through `err == nil` after %s (an error of the field packer must end the method)", sf.GoFields[0], helper)}
+			}
 		}
 		if ci != len(calls) {
 			return layoutResult{false, fmt.Sprintf("an extra call to %s after the last schema field", calleeName(calls[ci]))}
@@ -478,6 +481,46 @@ func skippedForDash(p ssaPath, recv ssa.Value, field string) bool {
 		}
 		if (b.Op == token.NEQ && !pc.taken) || (b.Op == token.EQL && pc.taken) {
 			return true
+		}
+	}
+	return false
+}
+
+// errGuarded: on path p the error result of call c is tested `err != nil` in a condition of the path and the path
+// goes on through the branch where it is nil (the generated code's `if err != nil { return ... }` after every field)
+func errGuarded(c *ssa.Call, p ssaPath) bool {
+	nres := 0
+	if tu, ok := c.Type().(*types.Tuple); ok {
+		nres = tu.Len()
+	}
+	if nres == 0 {
+		return false
+	}
+	ev := extractOf(c, nres-1)
+	if ev == nil {
+		return false
+	}
+	for _, pc := range p.conds {
+		b, ok := pc.cond.(*ssa.BinOp)
+		if !ok {
+			continue
+		}
+		var other ssa.Value
+		if b.X == ev {
+			other = b.Y
+		} else if b.Y == ev {
+			other = b.X
+		} else {
+			continue
+		}
+		if !isNilErrorConst(other) {
+			continue
+		}
+		switch b.Op {
+		case token.NEQ:
+			return !pc.taken
+		case token.EQL:
+			return pc.taken
 		}
 	}
 	return false
@@ -574,6 +617,9 @@ func (e *Engine) checkUnpackLayout(fn *ssa.Function, fields []SchemaField) layou
 			cur = extractOf(c, len(sf.GoFields))
 			if cur == nil {
 				return layoutResult{false, fmt.Sprintf("field %s: the offset result of %s is not used", sf.GoFields[0], helper)}
+			}
+			if !errGuarded(c, p) {
+				return layoutResult{false, fmt.Sprintf("field %s: the successful path does not go through `err == nil` after %s (an error of the field decoder must end the method)", sf.GoFields[0], helper)}
 			}
 		}
 		if ci != len(calls) {
